@@ -26,8 +26,8 @@ write("C07", "C07 — open handles stay bound to their stream and never touch ot
    ("writes_do_not_touch_other_chains", "chain_write_frame_other", "a write into one chain leaves the content of every chain that shares no sector with it unchanged"),
   ])
 
-write("C01", "C01 — namespace and content operations agree with an abstract tree model.  Statements are printed by Check below and compared with C01.expected.  PARTIAL: the directory layer (lookup / insert / remove / listing on the pointer table refine a search tree over cmp_names, for any tree shape) and the specification's own invariants are theorems; the composition into the full refinement step_refines_spec (abs (step s op) = spec_step (abs s) op, including stream bytes through chains and migrations) is NOT proved — it is checked instance by instance: on every step of every generated history the abstraction of the model state equals the specification tree and the specification's result equals the implementation's.",
-  IMP_ALL + "\nFrom Cfb.spec Require Import Tree.\nFrom Cfb.proofs Require Import NamesProofs DirProofs TreeProofs.",
+write("C01", "C01 — namespace and content operations agree with an abstract tree model.  Statements are printed by Check below and compared with C01.expected.  PARTIAL: proved are the directory layer (lookup / insert / remove / listing on the pointer table refine a search tree over cmp_names, for any tree shape), the specification's own invariants, and the refinement of the NAMESPACE: under the representation relation TreeRep (table represents abstract tree; stream bytes abstracted by a content relation with a frame hypothesis) every query returns the specification's result and every successful namespace mutation yields a table representing the specification's new tree, with agreeing refusal kinds.  NOT proved: that TreeRep is established by create/open and the content frame for stream bytes through chains and migrations (the composed step_refines_spec over whole histories) — that is checked instance by instance: on every step of every generated history the abstraction of the model state equals the specification tree and the specification's result equals the implementation's.",
+  IMP_ALL + "\nFrom Cfb.spec Require Import Tree.\nFrom Cfb.proofs Require Import NamesProofs DirProofs TreeProofs QueryRefine MutRefine.",
   [("lookup_is_bst_lookup", "find_in_siblings_total", "table lookup with the model's own fuel = search-tree lookup, for ANY tree shape (balance and colour irrelevant)"),
    ("bst_lookup_finds_exactly_equivalent_name", "bst_find_iff", "the id found is the unique entry whose name is equivalent up to case"),
    ("insert_is_bst_insert", "insert_rep", "insertion links a new leaf at the search position; ids become a permutation of new :: old"),
@@ -36,6 +36,13 @@ write("C01", "C01 — namespace and content operations agree with an abstract tr
    ("spec_keeps_children_sorted", "wf_spec_step", "every operation of the abstract specification keeps every children list strictly sorted (hence unique up to case)"),
    ("spec_siblings_coexist", "siblings_coexist", "any set of pairwise non-equivalent names inserted in any order gives the same sorted list; each stays findable under any case variant through insertions and removals"),
    ("spec_refusals_have_no_effect", "spec_refused_no_effect", "in the specification an Err result never changes the tree"),
+   ("path_lookup_refines_get", "lookup_refines_get", "when the directory table represents the abstract tree t (TreeRep), path lookup on the table = get on t, and the id found represents the node found"),
+   ("queries_refine_spec", "query_step_refines", "exists / is_stream / is_storage / entry / root_entry / read_storage / read_root / walk / walk_storage: the model's step returns exactly the specification's result (entries up to the root's length field), state unchanged"),
+   ("open_stream_refines_spec", "open_stream_step_refines", "open_stream succeeds exactly when the specification does, same error kind otherwise; the handle is bound to the id representing that leaf"),
+   ("namespace_mutations_refine_spec", "namespace_step_refines", "create_storage, remove_storage, remove_stream, set_storage_clsid, set_state_bits, set_created_time, set_modified_time: whenever the model's step succeeds, the specification succeeds and the new table represents the specification's new tree"),
+   ("create_stream_refines_spec", "create_stream_step_refines", "creating a new stream: the new table represents the tree with an empty leaf inserted at the sorted position"),
+   ("create_storage_refusal_kinds_agree", "create_storage_refusal", "when the specification refuses, the model refuses with the same kind and an unchanged state (same for the other seven operations: *_refusal in proofs/MutRefine.v)"),
+   ("remove_stream_refusal_kinds_agree", "remove_stream_refusal", "same, for remove_stream"),
   ])
 
 write("C15", "C15 — released space is reused: repeating a net-zero cycle does not grow the file.  Statements are printed by Check below and compared with C15.expected; proofs in proofs/ReuseProofs.v.  PARTIAL: the allocation-level theorems (reuse before growth, LIFO reuse of a freed chain, no MiniFAT / mini-stream chain extension while retained capacity suffices) are proved; the history-level statement netzero_stable (file size constant from the second repetition of ANY net-zero cycle) is checked by enumeration on the real crate and by evaluation of the model on the witness cycles.",
@@ -48,13 +55,18 @@ write("C15", "C15 — released space is reused: repeating a net-zero cycle does 
    ("witness_cycle_stable", "Examples.small_stream_cycle_stable", "the witness cycle create / write 100 / remove evaluated on the model: sizes 1536, 2560, 2560, 2560, 2560"),
   ])
 
-write("C02", "C02 — write-through persistence: the byte image always reopens to the same state.  Statements are printed by Check below and compared with C02.expected.  PARTIAL: proved are the write-through of the FAT (every cached cell equals the cell on disk after every table mutation, for reuse and growth paths), that the on-disk FAT read back as open does has the cache as a prefix, the entry / header codec round trips in both modes, and that strict acceptance gives the same state as permissive.  The composition persist (open (image s) = s up to free-list order, for every reachable s) is NOT proved; it is checked at every operation boundary of generated histories: the implementation's bytes, taken without flush, are reopened in both modes by the crate and by the model and all dumps compared.",
-  IMP_ALL + "\nFrom Cfb.proofs Require Import CoherenceProofs CodecProofs StrictProofs.",
+write("C02", "C02 — write-through persistence: the byte image always reopens to the same state.  Statements are printed by Check below and compared with C02.expected.  PARTIAL: proved are the write-through of the FAT, of the directory (insert / remove / metadata updates / new directory sectors) and of the MiniFAT cells (every cached cell or entry equals its bytes on disk after every mutation), that the on-disk FAT and directory read back as open does return the cache (the directory followed by the blank slots of its last sector), the entry / header codec round trips in both modes, and that strict acceptance gives the same state as permissive.  The composition persist (open (image s) = s up to free-list order, for every reachable s) is NOT proved; it is checked at every operation boundary of generated histories: the implementation's bytes, taken without flush, are reopened in both modes by the crate and by the model and all dumps compared.",
+  IMP_ALL + "\nFrom Cfb.proofs Require Import CoherenceProofs CodecProofs StrictProofs DirCoherence.",
   [("set_fat_writes_through", "set_fat_existing_coherent", "every FAT cell update is on disk when the call returns"),
    ("allocation_reuse_keeps_coherence", "allocate_reuse_preserves", "allocation from the free list keeps cache = disk"),
    ("allocation_growth_keeps_coherence", "allocate_grow_coherent", "growth (new FAT / DIFAT sectors) keeps cache = disk and the DIFAT consistent"),
    ("fat_on_disk_reads_back", "fat_roundtrip_on_disk", "reading the FAT sectors as open does returns the cached FAT as a prefix"),
    ("data_writes_do_not_touch_the_fat", "sector_write_keeps_fat", "writes to non-FAT sectors never disturb it, in any outcome"),
+   ("dir_entry_rewrites_write_through", "with_dir_entry_mut_coherent", "metadata / length updates of an entry are on disk when the call returns"),
+   ("insertion_writes_through", "insert_dir_entry_coherent_fatinv", "after insert_dir_entry (slot reuse, append within a sector, or a new directory sector) every cached entry equals its 128 bytes on disk and the rest of the chain is blank"),
+   ("removal_writes_through", "remove_dir_entry_coherent", "same after remove_dir_entry"),
+   ("directory_on_disk_reads_back", "dir_loop_reads_back", "open's directory loop on the image returns the cached table followed by blank slots"),
+   ("minifat_writes_through", "set_minifat_coherent", "every MiniFAT cell update is on disk when the call returns"),
    ("dirent_roundtrip", "dirent_roundtrip", "every valid directory entry decodes to itself in both modes"),
    ("header_roundtrip", "header_roundtrip", "every valid header decodes to itself in both modes"),
    ("strict_and_permissive_agree", "strict_implies_permissive", "both validation modes build the identical state"),
@@ -102,11 +114,21 @@ write("C03", "C03 — every produced image is a well-formed MS-CFB file by an in
    ("removal_creates_no_red_red", "remove_no_red_red", "no two adjacent red nodes are introduced"),
   ])
 
-write("C08", "C08 — bytes gained by growing a stream read as zero, whatever was there before.  Statements are printed by Check below and compared with C08.expected.  PARTIAL: at the handle level set_len refines 'truncate or pad with zeros' given the store's resize contract; at the chain level a zero fill overwrites exactly the requested range whatever the sectors held and leaves other chains alone.  That the store's resize (Store.v, with the repaired zero_fill for cases 1a/2b/3c) meets the contract for every history — including shrink-then-grow and reuse of freed mini sectors — is checked on the real crate against a byte vector for every buffer size, and by lockstep with the model, which keeps stale sector bytes.",
-  IMP_ALL + "\nFrom Cfb.spec Require Import VecSpec.\nFrom Cfb.proofs Require Import HandleProofs ChainProofs.",
+write("C08", "C08 — bytes gained by growing a stream read as zero, whatever was there before.  Statements are printed by Check below and compared with C08.expected.  PARTIAL: at the handle level set_len refines 'truncate or pad with zeros' given the store's resize contract; Store.resize itself is proved to zero every gained byte, with no hypothesis on what the sectors held before, for large streams (growth within the last sector, into reused sectors, by appending; shrink-then-grow) and for small streams that need no new mini sector; other streams are untouched.  NOT proved: growth of a small stream that allocates new mini sectors, and the mini <-> regular migrations; those, and whole histories, are checked on the real crate against a byte vector for every buffer size, and by lockstep with the model, which keeps stale sector bytes.",
+  IMP_ALL + "\nFrom Cfb.spec Require Import VecSpec.\nFrom Cfb.proofs Require Import HandleProofs ChainProofs StoreProofs StoreMiniProofs.",
   [("set_len_pads_with_zeros_given_store_contract", "h_set_len_refines", "set_len_post: the abstract vector becomes takeN n A ++ repeatN 0 (n - lenN A), cursor clamped"),
    ("chain_write_overwrites_exactly_the_range", "chain_write_spec", "zero_fill = a chain write of zeros: content becomes spliceN old off zeros regardless of old bytes"),
    ("chain_write_then_read_back", "chain_write_then_read", "what was written is what is read; disjoint ranges unchanged"),
    ("other_chains_untouched", "chain_write_frame_other", "no data of another chain is affected"),
+   ("large_stream_grow_reads_zero", "resize_big_grow_zero_within_chain", "Store.resize on a large stream growing inside its last sector: content becomes V ++ zeros with NO hypothesis on the old tail bytes; other large streams untouched"),
+   ("large_stream_grow_into_reused_sectors_reads_zero", "resize_big_grow_zero_new_sectors", "growth into sectors taken from the free list: all gained bytes zero"),
+   ("large_stream_grow_by_appending_reads_zero", "resize_big_grow_zero_append", "growth by appending sectors to the file: all gained bytes zero"),
+   ("large_stream_shrink_then_grow", "shrink_then_grow_zero_general", "the repaired defect's scenario for large streams: shrink to m then grow back reads takeN m V ++ zeros, also when sectors are released and come back from the free stack"),
+   ("without_zero_fill_stale_bytes_show", "StoreExamples.without_zero_fill_stale", "witness that the explicit zero fill is necessary: 5000 -> 4700 -> 5000 without it reads 300 stale bytes"),
+   ("small_stream_grow_reads_zero", "resize_small_grow_zero_within_chain", "Store.resize on a small (mini-stream) stream growing inside its last mini sector: V ++ zeros with NO hypothesis on the old bytes of the mini sector"),
+   ("small_stream_shrink_then_grow", "small_shrink_then_grow_zero", "100 -> 70 -> 100 style scenario for small streams"),
+   ("small_stream_writes_do_not_touch_other_streams", "small_write_frame_other", "writes and resizes of one small stream leave every other small stream's content unchanged"),
+   ("large_stream_read_back", "read_data_big", "reads return exactly the represented bytes"),
+   ("small_stream_read_back", "read_data_small", "same for small streams"),
   ])
 print("props written")
